@@ -44,12 +44,22 @@ def classify(rec):
 
 
 def vstr(t):
-    return "%d.%d.%d" % t
+    return ".".join("%d" % c for c in t)
 
 
 def gen_pair(rng):
     """(version triple, threshold triple, class)."""
-    c = rng.randrange(7)
+    c = rng.randrange(8)
+    if c == 7:
+        # the two numbers do not have the same number of components (a threshold written "2.6", a
+        # four-part firmware number): still compared component by component
+        nv, nt = rng.choice(((2, 3), (3, 2), (1, 3), (3, 1), (4, 3), (3, 4), (2, 4)))
+        v = [rng.choice(GRID) for _ in range(nv)]
+        t = [rng.choice(GRID) for _ in range(nt)]
+        if rng.random() < 0.6:
+            k = min(nv, nt)
+            t[:k] = v[:k]              # equal on the components they share
+        return tuple(v), tuple(t), "different number of components"
     if c == 0:
         v = tuple(rng.choice(GRID) for _ in range(3))
         return v, v, "equal"
@@ -85,6 +95,11 @@ def order_case(ctx, rng):
     from plotink import ebb_serial
     v, t, cls = gen_pair(rng)
     want = v >= t
+    n = max(len(v), len(t))
+    padded = tuple(v) + (0,) * (n - len(v)) >= tuple(t) + (0,) * (n - len(t))
+    undecided = padded != want      # "3.0" against "3.0.0": equal or older, depending on whether a missing
+    #                                 component counts as zero - the statement does not say; only the
+    #                                 agreement of the two layers is decided for such pairs
     # EBB3 layer
     obj = ebb3mon.monitored_class()()
     obj.parse_version(PRODUCT + vstr(v) + rng.choice(["", " ", "\r\n"]))
@@ -97,9 +112,11 @@ def order_case(ctx, rng):
     ctx.case(["order", "order:" + cls, "order:newer-or-equal" if want else "order:older"], ("order", v, t))
     ctx.count("monitor:version comparisons checked", 2)
     w = {"part": "order", "version": vstr(v), "threshold": vstr(t), "expected": want, "ebb3": got3, "legacy": got2}
-    if got3 is not want:
+    if undecided:
+        ctx.tag("order: missing trailing components that are zero in the other number (only layer agreement decided)")
+    elif got3 is not want:
         ctx.violation("EBB3.min_version does not order versions numerically", w)
-    if got2 is not want:
+    elif got2 is not want:
         ctx.violation("ebb_serial.min_version does not order versions numerically", w)
     if got2 is not got3:
         ctx.violation("the two layers disagree on a version comparison", w)
@@ -121,7 +138,7 @@ def triple(text):
 
 def gen_handshake(rng):
     """(classes, step, board kwargs, device description)"""
-    c = rng.randrange(10)
+    c = rng.randrange(11)
     version = rng.choice(VERSIONS) if rng.random() < 0.7 else vstr(tuple(rng.randint(0, 12) for _ in range(3)))
     board = {"version": version}
     step = {"m": "connect", "a": [], "faults": []}
@@ -167,6 +184,18 @@ def gen_handshake(rng):
         # first probe answered by garbage/late junk, second by the EBB
         step["reply"] = {"0": rng.choice(["\r\n", "OK\r\n", "!8 Err: Unknown command\r\n"])}
         dev["timing"] = "identified by the second probe"
+    elif c == 10:
+        # the version line arrives in two pieces because the 1 s read timeout fires in the middle of it
+        # (a slow or busy board): readline() hands over what it has.  Whatever the pieces look like, a
+        # board whose firmware is too old must not be accepted; refusing a supported board in this
+        # degraded situation is not a violation ('returns True ... only for').
+        full = "EBBv13_and_above EB Firmware Version " + version + "\r\n"
+        lo = len(full) - len(version) - 2
+        cut = rng.randint(lo, len(full) - 1) if rng.random() < 0.8 else rng.randint(1, len(full) - 1)
+        pieces = [full[:cut], full[cut:]]
+        step["reply"] = {"0": pieces, "1": pieces}
+        dev["timing"] = "reply cut in two by the read timeout"
+        dev["fragment"] = pieces[0][lo:] if cut >= lo else "(cut before the version)"
     elif c == 9 and rng.random() < 0.5:
         op = rng.choice(["reset", "close"])
         exc = rng.choice(["SerialException", "SerialTimeoutException", "PortNotOpenError"])
@@ -181,6 +210,8 @@ def gen_handshake(rng):
     else:
         step["ports"] = []
         dev["identity"] = "no port enumerated"
+    if rng.random() < 0.1:
+        step["k"] = {"caller": rng.choice(["axicli", "inkscape", ""])}
     if rng.random() < 0.15 and c not in (9,):
         step["a"] = [rng.choice(["/dev/fake0", "Ada", "ada", "/DEV/FAKE0"])]
         step["ports"] = [("/dev/fake0", "EiBotBoard,Ada", "USB VID:PID=04D8:FD92 SER=Ada LOCATION=1")]
@@ -218,8 +249,17 @@ def handshake_case(ctx, rng, fixed=None):
     io = ebb3mon.io_of(world, top)
     writes = [e["data"] for e in io if e["kind"] == "write"]
     accept, why = expected_accept(dev, min_triple)
-    ctx.tag("expected:accept" if accept else "expected:reject (%s)" % why.split(" ")[0])
     res = top["result"]
+    if "fragment" in dev:
+        ctx.tag("version reply cut by the read timeout: firmware %s" % ("supported" if accept else "too old"))
+        if res is True and obj.err is None:
+            if not accept:
+                ctx.violation("board with firmware below the minimum accepted (version reply cut by the read timeout)",
+                              dict(witness, returned=repr(res), err=obj.err, why=why, first_piece=dev["fragment"]))
+            return
+        accept = False      # refused: must then look like any other refusal (checked below)
+        why = "refused after a cut reply (" + why + ")"
+    ctx.tag("expected:accept" if accept else "expected:reject (%s)" % why.split(" ")[0])
     if accept:
         if res is not True or obj.err is not None:
             ctx.violation("supported EBB rejected", dict(witness, returned=repr(res), err=obj.err, why=why))
@@ -377,14 +417,23 @@ def run(ctx):
     lg.propagate = False
     rng = ctx.rng
     for _ in range(ctx.budget(12000, 150000)):
+        if rng.random() < 0.01:
+            from .. import noise
+            noise.burst(ctx, rng, exclude=('versions', 'discovery'))
         order_case(ctx, rng)
     for i in range(ctx.budget(6000, 80000)):
         if not ctx.alive():
             break
+        if rng.random() < 0.03:
+            from .. import noise
+            noise.burst(ctx, rng, exclude=('versions', 'discovery'))
         handshake_case(ctx, rng)
     for _ in range(ctx.budget(5000, 60000)):
+        if rng.random() < 0.02:
+            from .. import noise
+            noise.burst(ctx, rng, exclude=('versions', 'discovery'))
         gate_case(ctx, rng)
-    for cls in ("order:equal", "order:differ in one component", "order:digit-length trap (string order differs)",
+    for cls in ("order:equal", "order:different number of components", "order:differ in one component", "order:digit-length trap (string order differs)",
                 "order:grid x grid", "order:major decides", "order:random multi-digit", "order:older",
                 "order:newer-or-equal", "identity:EBB", "identity:silent", "identity:non-EBB",
                 "identity:non-EBB (text contains EBB, no version)", "identity:non-EBB (non-ASCII bytes)",
@@ -395,6 +444,9 @@ def run(ctx):
     for g in GATES:
         ctx.need("gate:" + g[0], 200)
     ctx.need("monitor:connect() calls checked", 3000)
+    ctx.need("version reply cut by the read timeout: firmware too old", 100)
+    ctx.need("version reply cut by the read timeout: firmware supported", 100)
+    ctx.need("history: after calls to other library functions", 200)
     ctx.need("retried connect after a rejection", 500)
     for kind in ("older firmware", "non-EBB", "supported again", "EBB text without version"):
         ctx.need("second session on the same object: " + kind, 50)
